@@ -211,6 +211,7 @@ class Tiles:
             "odc.geo.roi.Tiles",
             *self._shape,
             *self._tile_shape,
+            *self._base_shape,
         )
 
     def __str__(self) -> str:
